@@ -72,41 +72,11 @@ def run(ctx):
     ctx.analysed_fns.update([GEN, RCV])
     sp = state_param(g)
     # ---------------- Y1
-    unchanged, responded = [], []
-    for sb, sw in g.switches():
-        src = g.bool_operand_source(sw["op"])
-        if not src:
-            continue
-        zero = [tb for v, tb in sw["targets"] if v == "0"]
-        te = [(sb, zero[0])] if src["negated"] and zero else ([] if src["negated"] else [(sb, sw["otherwise"])])
-        if src["kind"] == "call" and (norm_fn(src.get("decl") or src["callee"]) or "").endswith("PartialEq::eq"):
-            t = src["t"]
-            fl = set()
-            for a in t["args"]:
-                for l, pr in g.provenance(a, through_calls=False).places:
-                    o = g.origin(l, pr)
-                    if o[0] == sp:
-                        fl |= {e for e in o[1] if e.startswith(".")}
-            from_heads = any(any(norm_fn(c) == "automerge::automerge::Automerge::get_heads" for c in g.provenance(a, through_calls=True).callees()) for a in t["args"])
-            if ".last_sent_heads" in fl and from_heads:
-                unchanged += te
-        if src["kind"] == "place" and src["origin"][0] == sp and [e for e in src["origin"][1] if e.startswith(".")] == [".have_responded"]:
-            responded += te
-    ctx.floor("tests last_sent_heads == our_heads", len(unchanged), 1)
-    ctx.floor("tests of have_responded", len(responded), 1)
-    nones = [(bi, st) for bi, blk in enumerate(g.blocks) if not blk.get("cleanup") for st in blk["st"]
-             if st["d"]["l"] == 0 and not st["d"]["p"] and st["rv"]["k"] == "Agg" and st["rv"].get("adt") == "core::option::Option" and st["rv"].get("variant") == "None"]
-    ctx.floor("explicit None returns of generate_sync_message", len(nones), 2)
-    # ... and only for one of three reasons: the peer's heads are ours, we are read-only, or a message is still unanswered
-    level, ro, infl_t = [], [], []
-    for sb, sw in g.switches():
-        src = g.bool_operand_source(sw["op"])
-        if not src:
-            continue
-        zero = [tb for v, tb in sw["targets"] if v == "0"]
-        te = [(sb, zero[0])] if src["negated"] and zero else ([] if src["negated"] else [(sb, sw["otherwise"])])
-        if src["kind"] == "call" and (norm_fn(src.get("decl") or src["callee"]) or "").endswith("PartialEq::eq"):
-            t = src["t"]
+    def eq_of(field):
+        """PartialEq::eq between sync_state.<field> and a value derived from get_heads()"""
+        def pred(t):
+            if not (norm_fn(t.get("fn")) or "").endswith("PartialEq::eq"):
+                return False
             fl, heads = set(), False
             for a in t["args"]:
                 pv = g.provenance(a, through_calls=True)
@@ -115,24 +85,29 @@ def run(ctx):
                     o = g.origin(l, pr)
                     if o[0] == sp:
                         fl |= {e for e in o[1] if e.startswith(".")}
-            if fl == {".their_heads"} and heads:
-                level += te
-        if src["kind"] == "place" and src["origin"][0] == sp:
-            fs = [e for e in src["origin"][1] if e.startswith(".")]
-            if fs == [".read_only"]:
-                ro += te
-            if fs == [".in_flight"]:
-                infl_t += te
-    ctx.floor("tests their_heads == our_heads", len(level), 1)
+            return fl == {field} and heads
+        return pred
+
+    def fld(*names):
+        return lambda o: o[0] == sp and [e for e in o[1] if e.startswith(".")] in [[n] for n in names]
+    n_atoms = lambda pred: sum(1 for _, t in g.calls() if pred(t))
+    ctx.floor("comparisons last_sent_heads == our_heads", n_atoms(eq_of(".last_sent_heads")), 1)
+    ctx.floor("comparisons their_heads == our_heads", n_atoms(eq_of(".their_heads")), 1)
+    unchanged = cfg.cond_edges(g, atom_call=eq_of(".last_sent_heads"))
+    responded = cfg.cond_edges(g, atom_place=fld(".have_responded"))
+    reasons = cfg.cond_edges(g, atom_call=eq_of(".their_heads"), atom_place=fld(".read_only", ".in_flight"))
+    nones = [(bi, st) for bi, blk in enumerate(g.blocks) if not blk.get("cleanup") for st in blk["st"]
+             if st["d"]["l"] == 0 and not st["d"]["p"] and st["rv"]["k"] == "Agg" and st["rv"].get("adt") == "core::option::Option" and st["rv"].get("variant") == "None"]
+    ctx.floor("explicit None returns of generate_sync_message", len(nones), 1)
     for k, (bi, st) in util.ordinal_keys(nones, lambda it: "generate_sync_message|None"):
-        reasons = level + ro + infl_t
         okr = bool(reasons) and g.edges_dominate(reasons, bi)
         ctx.ob("Y1", k + "|reason", okr, st["sp"], "their heads are ours, we are read-only, or a message is in flight" if okr else
                "generate_sync_message can go quiet for a reason other than `their heads == our heads`, read-only or an unanswered message: with heads that differ nobody speaks again")
     for k, (bi, st) in util.ordinal_keys(nones, lambda it: "generate_sync_message|None"):
-        ok = g.edges_dominate(unchanged, bi) and g.edges_dominate(responded, bi)
+        a_, b_ = bool(unchanged) and g.edges_dominate(unchanged, bi), bool(responded) and g.edges_dominate(responded, bi)
+        ok = a_ and b_
         ctx.ob("Y1", k, ok, st["sp"], "quiet only after the current heads were sent" if ok else
-               "generate_sync_message can return None although the peer has not been told our current heads (last_sent_heads == our_heads: %s, have_responded: %s): the other side never learns it is behind" % (g.edges_dominate(unchanged, bi), g.edges_dominate(responded, bi)))
+               "generate_sync_message can return None although the peer has not been told our current heads (last_sent_heads == our_heads: %s, have_responded: %s): the other side never learns it is behind" % (a_, b_))
     # ---------------- Y2
     builds = [(bi, t) for bi, t in g.calls() if (callee(t) or "").endswith("MessageBuilder::build")]
     ctx.floor("MessageBuilder::build calls", len(builds), 1)
